@@ -102,6 +102,10 @@ impl Engine for Sinks {
     }
 
     fn gen(&self, rng: &mut Rng, _idx: usize, tier: Tier, _focus: &str) -> Case {
+        if rng.chance(1, if tier == Tier::Quick { 60 } else { 200 }) {
+            let cap = *rng.pick(&[1u64, 2, 3, 4, 7]);
+            return Case { lines: vec![format!("stress {cap} {} {}", rng.range(2, 6), rng.range(2000, 20000))] };
+        }
         let kind = rng.weighted(&[5, 2, 2]);
         let maxlen = match tier {
             Tier::Quick => 60,
@@ -167,6 +171,43 @@ impl Engine for Sinks {
                     st = St::Buf(b, wr);
                     out.tags.push(format!("buf.cap{}", cap.min(6)));
                     "ok".to_string()
+                }
+                (["stress", cap, writers, n], _) => {
+                    // several threads write through clones of one writer into a small buffer: whatever the interleaving, each
+                    // write is one critical section, so the buffer holds the most recent `cap` arrivals — at most `cap`
+                    // events, and of every writer a (possibly empty) suffix of what it wrote, in its order
+                    let (cap, writers, n): (usize, u64, u64) = (cap.parse().unwrap(), writers.parse().unwrap(), n.parse().unwrap());
+                    let mut b: EventBuffer<u64> = EventBuffer::with_capacity(cap);
+                    let wr = b.writer();
+                    let hs: Vec<_> = (0..writers)
+                        .map(|wi| {
+                            let wr = wr.clone();
+                            std::thread::spawn(move || {
+                                for k in 0..n {
+                                    wr.write(wi * 1_000_000 + k);
+                                }
+                            })
+                        })
+                        .collect();
+                    for h in hs {
+                        h.join().unwrap();
+                    }
+                    let got: Vec<u64> = b.by_ref().collect();
+                    let expect_len = cap.min((writers * n) as usize);
+                    let mut ok = got.len() == expect_len;
+                    for wi in 0..writers {
+                        let mine: Vec<u64> = got.iter().filter(|v| **v / 1_000_000 == wi).map(|v| v % 1_000_000).collect();
+                        let suffix: Vec<u64> = (n - mine.len() as u64..n).collect();
+                        if mine != suffix {
+                            ok = false;
+                        }
+                    }
+                    if !ok {
+                        out.monitor.push(("C17".into(), format!("{writers} threads wrote {n} events each into an EventBuffer of capacity {cap}; it then held {} events ({:?}{}): it must hold exactly the {expect_len} most recent ones (of every writer a suffix of its writes)", got.len(), &got[..got.len().min(12)], if got.len() > 12 { " …" } else { "" })));
+                    }
+                    out.nontrivial = true;
+                    out.tags.push("stress".into());
+                    format!("stress len={}", got.len().min(cap + 1))
                 }
                 (["case", "slot", o], _) => {
                     is_open = *o != "0";
